@@ -11,9 +11,11 @@
 //!     (which has a correct hard binding and, in one variant, a disallowed action) as an update manifest by
 //!     rewriting that UUID: never Valid/Trusted.
 //!
-//! Mutants caught (tools/mutant_run.sh B ... C21 quick):
-//!   /verif/mutants/C21-skip-binding-for-update.diff
-//!   /verif/mutants/C21-action-prefix-match.diff
+//! Mutants caught (quick tier; unchanged tree reports only `... hard-binding-datahash fmt=*`):
+//!   /verif/mutants/C21-skip-binding-for-update.diff (verify_store skips the hash binding when the active manifest is an update
+//!       manifest): 3 -> 1295 violations, new keys `content-change-undetected {datahash+update,bmffhash} {jpeg,png,mp4} at=... edit=...`
+//!   /verif/mutants/C21-action-prefix-match.diff (allowed-action test `a.starts_with(action)` instead of equality): 3 -> 8,
+//!       new keys `rule-violating-update-accepted disallowed-action=c2pa.edited fmt=*`, `... relabel=standard-edited-as-update fmt=*`
 
 use std::io::Cursor;
 
